@@ -3,8 +3,8 @@ SPECIFICATION GenSpec
 CONSTANTS
   CAuth = {"PREFERRED"}
   SAuth = {"PREFERRED"}
-  CEnc = {"REQUIRED"}
-  SEnc = {"REQUIRED"}
+  CEnc = {"REQUIRED", "PREFERRED", "OPTIONAL"}
+  SEnc = {"REQUIRED", "OPTIONAL"}
   CMethods <- ListsC04
   SMethods <- ListsC04
   CCiphers <- OnlyAES
